@@ -103,7 +103,7 @@ func TestPlanes(t *testing.T) {
 			return c
 		},
 		Check: checkPlane, Require: []string{"plane/lane0", "plane/lane63", "plane/middle-lane", "plane/none-qualifies"},
-		Rule:  "hook: 64-lane bit planes with random hashes and lanes forced to exactly n-1 / n / n+1 trailing zeros at lane 0, 63 or random; checkStateTrits must return the first lane with >= n trailing zero trits (or >= 64 when none); all non-trivial; distinct by case",
+		Rule: "hook: 64-lane bit planes with random hashes and lanes forced to exactly n-1 / n / n+1 trailing zeros at lane 0, 63 or random; checkStateTrits must return the first lane with >= n trailing zero trits (or >= 64 when none); all non-trivial; distinct by case",
 	})
 }
 
